@@ -247,6 +247,8 @@ func (u *multiUpdateExecutor) buildBeforeImageSQL(args []driver.NamedValue, meta
 		newArgs        = make([]driver.NamedValue, 0, len(u.parserCtx.MultiStmt))
 		fields         = make([]*ast.SelectField, 0, len(meta.ColumnNames))
 		fieldsExits    = make(map[string]struct{}, len(meta.ColumnNames))
+		unconditional  bool
+		where          ast.ExprNode
 	)
 
 	for _, multiStmt := range u.parserCtx.MultiStmt {
@@ -288,6 +290,12 @@ func (u *multiUpdateExecutor) buildBeforeImageSQL(args []driver.NamedValue, meta
 			}
 		}
 
+		if updateStmt.Where == nil {
+			// an UPDATE without WHERE changes every row: the rows of the batch are the whole table
+			unconditional = true
+			continue
+		}
+
 		tmpSelectStmt := ast.SelectStmt{
 			SelectStmtOpts: &ast.SelectStmtOpts{},
 			From:           updateStmt.TableRefs,
@@ -311,28 +319,34 @@ func (u *multiUpdateExecutor) buildBeforeImageSQL(args []driver.NamedValue, meta
 		whereCondition.Write(in.Bytes())
 	}
 
-	// only just get the where condition
-	fakeSql := "select * from t where " + whereCondition.String()
-	fakeStmt, err := parser.New().ParseOneStmt(fakeSql, "", "")
-	if err != nil {
-		log.Errorf("multi update parse fake sql error")
-		return "", nil, err
-	}
-	fakeNode, ok := fakeStmt.Accept(&updateVisitor{})
-	if !ok {
-		log.Errorf("multi update accept update visitor error")
-		return "", nil, err
-	}
-	fakeSelectStmt, ok := fakeNode.(*ast.SelectStmt)
-	if !ok {
-		log.Errorf("multi update fake node is not select stmt")
-		return "", nil, err
+	if unconditional {
+		// no condition, hence none of the conditions' arguments
+		newArgs = newArgs[:0]
+	} else {
+		// only just get the where condition
+		fakeSql := "select * from t where " + whereCondition.String()
+		fakeStmt, err := parser.New().ParseOneStmt(fakeSql, "", "")
+		if err != nil {
+			log.Errorf("multi update parse fake sql error")
+			return "", nil, err
+		}
+		fakeNode, ok := fakeStmt.Accept(&updateVisitor{})
+		if !ok {
+			log.Errorf("multi update accept update visitor error")
+			return "", nil, err
+		}
+		fakeSelectStmt, ok := fakeNode.(*ast.SelectStmt)
+		if !ok {
+			log.Errorf("multi update fake node is not select stmt")
+			return "", nil, err
+		}
+		where = fakeSelectStmt.Where
 	}
 
 	selStmt := ast.SelectStmt{
 		SelectStmtOpts: &ast.SelectStmtOpts{},
 		From:           multiStmts[0].UpdateStmt.TableRefs,
-		Where:          fakeSelectStmt.Where,
+		Where:          where,
 		Fields:         &ast.FieldList{Fields: fields},
 		TableHints:     multiStmts[0].UpdateStmt.TableHints,
 		LockInfo: &ast.SelectLockInfo{
